@@ -37,6 +37,9 @@ var xUnits = []xUnit{
 	{Name: "tr_WriteInt16", Dir: "tars/protocol/codec", Func: "Buffer.WriteInt16", Writer: codecWriter},
 	{Name: "tr_WriteInt32", Dir: "tars/protocol/codec", Func: "Buffer.WriteInt32", Writer: codecWriter},
 	{Name: "tr_WriteInt64", Dir: "tars/protocol/codec", Func: "Buffer.WriteInt64", Writer: codecWriter},
+	// selector.BuildStaticWeightList up to the scaling range: static-weight check, min / max weight, guard, clamp
+	{Name: "tr_BSWL_range", Dir: "tars/selector", Func: "BuildStaticWeightList", From: "var maxRange, totalWeight int", To: "if minWeight > 0 {",
+		Outs: []string{"maxRange", "totalWeight", "minWeight", "maxWeight"}},
 	// the end of endpoint.Parse: from the flag variables to the Endpoint value (without its cache key)
 	{Name: "tr_Parse_build", Dir: "tars/util/endpoint", Func: "Parse", From: "isTcp := int32(0)", To: "e := Endpoint{",
 		Outs: []string{"e"}, After: []string{"e.Key = e.String()", "return e"}},
@@ -49,37 +52,70 @@ type xPkg struct {
 	pkg   *types.Package
 }
 
-// lenient importer: the standard packages the subset knows are type-checked from source; every other import
-// is an empty package (uses of it have no type and cannot be translated).
-type xImporter struct{ src types.Importer }
+// xLoader type-checks packages of the tree from source. Imports: packages of the tree's own module are loaded the
+// same way; the standard packages the subset knows are type-checked from GOROOT source; every other import is an
+// empty package (uses of it have no type and cannot be translated). Type errors elsewhere in a package are
+// tolerated: what a unit needs is checked on use.
+type xLoader struct {
+	root, mod string
+	pkgs      map[string]*xPkg
+	std       types.Importer
+}
 
-func (m xImporter) Import(path string) (*types.Package, error) {
+func newXLoader(root string) *xLoader {
+	l := &xLoader{root: root, pkgs: map[string]*xPkg{}, std: importer.ForCompiler(token.NewFileSet(), "source", nil)}
+	if b, err := os.ReadFile(filepath.Join(root, "go.mod")); err == nil {
+		for _, line := range strings.Split(string(b), "\n") {
+			if f := strings.Fields(line); len(f) == 2 && f[0] == "module" {
+				l.mod = f[1]
+			}
+		}
+	}
+	return l
+}
+
+func (l *xLoader) Import(path string) (*types.Package, error) {
 	if path == "encoding/binary" || path == "math" || path == "bytes" {
-		return m.src.Import(path)
+		return l.std.Import(path)
+	}
+	if l.mod != "" && strings.HasPrefix(path, l.mod+"/") {
+		if p, err := l.load(path[len(l.mod)+1:]); err == nil {
+			return p.pkg, nil
+		}
 	}
 	p := types.NewPackage(path, filepath.Base(path))
 	p.MarkComplete()
 	return p, nil
 }
 
-func xLoad(root, dir string) (*xPkg, error) {
-	full := filepath.Join(root, dir)
+func (l *xLoader) load(dir string) (*xPkg, error) {
+	if p, ok := l.pkgs[dir]; ok {
+		if p == nil {
+			return nil, fmt.Errorf("import cycle through %s", dir)
+		}
+		return p, nil
+	}
+	l.pkgs[dir] = nil
+	full := filepath.Join(l.root, dir)
 	bp, err := build.Default.ImportDir(full, 0) // the files of a default build (no verif tag)
 	if err != nil {
+		delete(l.pkgs, dir)
 		return nil, err
 	}
 	p := &xPkg{fset: token.NewFileSet()}
 	for _, f := range bp.GoFiles {
 		af, err := parser.ParseFile(p.fset, filepath.Join(full, f), nil, 0)
 		if err != nil {
+			delete(l.pkgs, dir)
 			return nil, err
 		}
 		p.files = append(p.files, af)
 	}
 	p.info = &types.Info{Types: map[ast.Expr]types.TypeAndValue{}, Uses: map[*ast.Ident]types.Object{}, Defs: map[*ast.Ident]types.Object{},
 		Selections: map[*ast.SelectorExpr]*types.Selection{}}
-	conf := types.Config{Importer: xImporter{importer.ForCompiler(p.fset, "source", nil)}, Error: func(error) {}}
-	p.pkg, _ = conf.Check(dir, p.fset, p.files, p.info) // errors elsewhere in the package are tolerated: what the unit needs is checked on use
+	conf := types.Config{Importer: l, Error: func(error) {}}
+	p.pkg, _ = conf.Check(l.mod+"/"+dir, p.fset, p.files, p.info)
+	l.pkgs[dir] = p
 	return p, nil
 }
 
@@ -113,14 +149,10 @@ func (p *xPkg) findFunc(name string) *ast.FuncDecl {
 }
 
 // xlateUnit: the Gallina definition of one unit (panics with xErr outside the subset)
-func xlateUnit(root string, u *xUnit, pkgs map[string]*xPkg, records map[string]*types.Named, recOrd *[]string, consts map[string]string, constOrd *[]string) string {
-	p, ok := pkgs[u.Dir]
-	if !ok {
-		var err error
-		if p, err = xLoad(root, u.Dir); err != nil {
-			panic(xErr{token.Position{Filename: filepath.Join(root, u.Dir)}, err.Error()})
-		}
-		pkgs[u.Dir] = p
+func xlateUnit(root string, u *xUnit, ld *xLoader, records map[string]*types.Named, recOrd *[]string, consts map[string]string, constOrd *[]string) string {
+	p, err := ld.load(u.Dir)
+	if err != nil {
+		panic(xErr{token.Position{Filename: filepath.Join(root, u.Dir)}, err.Error()})
 	}
 	fd := p.findFunc(u.Func)
 	if fd == nil {
@@ -207,6 +239,9 @@ func xlateUnit(root string, u *xUnit, pkgs map[string]*xPkg, records map[string]
 			x.fail(fd, "slice %q .. %q not found among the top-level statements of %s (the function changed: review the unit in harness/xlate_units.go)", u.From, u.To, u.Func)
 		}
 		after := body[last+1:]
+		if u.After == nil { // the unit does not pin what follows
+			after = nil
+		}
 		if len(after) != len(u.After) {
 			x.fail(fd, "%d statements follow the slice, the unit expects %d", len(after), len(u.After))
 		}
@@ -282,7 +317,7 @@ func xRecordDecl(name string, nm *types.Named, x *xl) string {
 
 func xlateAll(root string) (string, []string) {
 	var out, errs []string
-	pkgs := map[string]*xPkg{}
+	ld := newXLoader(root)
 	records := map[string]*types.Named{}
 	var recOrd, constOrd []string
 	consts := map[string]string{}
@@ -307,7 +342,7 @@ func xlateAll(root string) (string, []string) {
 						strings.ReplaceAll(strings.ReplaceAll(msg, "(*", "( *"), "*)", "* )"), u.Name))
 				}
 			}()
-			def := xlateUnit(root, u, pkgs, records, &recOrd, consts, &constOrd)
+			def := xlateUnit(root, u, ld, records, &recOrd, consts, &constOrd)
 			for ; emittedC < len(constOrd); emittedC++ { // named constants first used by this unit
 				out = append(out, fmt.Sprintf("Definition %s : Z := %s.", constOrd[emittedC], consts[constOrd[emittedC]]))
 			}
